@@ -196,6 +196,9 @@ fn decide_body_strategy<R: Read>(headers: &Headers, mut body: R) -> io::Result<B
             let mut buf = Vec::with_capacity(cl as usize);
             let mut limited = body.by_ref().take(cl);
             limited.read_to_end(&mut buf)?;
+            if (buf.len() as u64) < cl {
+                return Err(body_shorter_than_declared());
+            }
             return Ok(BodyStrategy::Fast(buf, cl));
         } else {
             return Ok(BodyStrategy::Streaming(body, cl));
@@ -390,7 +393,19 @@ fn write_vectored_bytes<W: Write>(mut writer: W, mut head: Vec<u8>, body: &[u8])
 #[inline]
 fn write_streaming<W: Write, R: Read>(writer: &mut W, body: R, cl: u64) -> io::Result<()> {
     // never send more than the declared content-length (as the small-body path does)
-    std::io::copy(&mut body.take(cl), writer).map(|_| ())
+    let copied = std::io::copy(&mut body.take(cl), writer)?;
+    if copied < cl {
+        // the head already promised `cl` bytes: the message is broken, the caller must not go on
+        return Err(body_shorter_than_declared());
+    }
+    Ok(())
+}
+
+fn body_shorter_than_declared() -> io::Error {
+    io::Error::new(
+        io::ErrorKind::UnexpectedEof,
+        "body shorter than the declared content-length",
+    )
 }
 
 #[inline]
